@@ -303,6 +303,9 @@ def drive(ctx, gs):
         if rnd > 40:
             raise ToolError("C06: attribution of build failures does not converge")
         jobs = [(g, j) for g in gs for j in g.jobs()]
+        log("[C06] build round %d: %s" % (rnd, ", ".join("%s x%d (%d cases)" % (g.r, sum(1 for h, _ in jobs if h is g),
+                                                                          sum(len(j[1]) for h, j in jobs if h is g))
+                                                   for g in gs if any(h is g for h, _ in jobs))))
         # big packages first
         jobs.sort(key=lambda x: -len(x[1][1]))
         res = run_packages(ctx, [j[0] for _, j in jobs], procs=PROCS)
@@ -562,8 +565,9 @@ def self_test(ctx, recs, frecs=()):
                      **{const: "FALSE"})
         r = ctx.tlc("MC_ConstEval", cfg, workers=1, xss="256m", name="MC_ConstEval_un" + const, count=False)
         res["model_without_" + const] = r.violated or "NO VIOLATION"
-        if r.violated != "NoPanic":
-            raise ToolError("C06 self-test: ConstEval.tla with %s = FALSE does not violate NoPanic" % const)
+        # (u256 % 0 aborts at run time, so the panic is met first as "no compile error where run time aborts")
+        if r.violated not in ("NoPanic", "NoSubstitution"):
+            raise ToolError("C06 self-test: ConstEval.tla with %s = FALSE does not violate NoPanic / NoSubstitution" % const)
     return res
 
 
